@@ -24,7 +24,7 @@ import time
 import vlib
 
 PID = "C20"
-DESIGN_INV = "TypeOK Ownership Fidelity BadNeverSent SharedUnaltered SamplesExact NeighboursUnaffected"
+DESIGN_INV = "TypeOK Ownership Fidelity BadNeverSent SharedUnaltered SamplesExact NeighboursUnaffected ReceivedOnce"
 
 
 MANIFEST = dict(
@@ -43,7 +43,11 @@ MANIFEST = dict(
           "and guns through the registered factories, runs the real engine, and TLC accepts the recorded NewGun/Bind/ShootBegin/Recv/Sample/ShootEnd "
           "lines only if they are a behaviour of GrpcWire. Right level: the statement quantifies over all entries and configurations and over "
           "interleaved good/bad neighbours; the acceptance test fires one payload and compares counters."),
-    note=("Values are compared as (prefix, token) pairs; only non-default values (proto3 cannot tell a default from an absent field). Received metadata "
+    note=("Also decided here: the metadata key rule (wire key = lower case, several entries under one wire key all arrive, -bin values, entries that "
+          "cannot be attached are never sent), error answers of the target (every status: received exactly once, the sample carries the answer), the "
+          "JSON->protobuf mapping as a TLA+ function (GrpcJson.tla) over 363 generated payload cases shot as grpc/json and as scenario calls at a "
+          "reflection-only service with nested / repeated / map / enum / bytes / oneof / well-known-type fields, TLS on/off and reflect_metadata / "
+          "authority in the connection part. Values are compared as (prefix, token) pairs; only non-default values (proto3 cannot tell a default from an absent field). Received metadata "
           "is checked to contain the entry's metadata (transport entries removed). 'Within the configured timeout' is decided as 'per call' by one "
           "run with a 1 s timeout and 1.2 s of think time between three fast calls (exit 2 if the machine was too slow to judge); all other runs use 120 s. "
           "reflect_port runs serve reflection from a second server that also implements the service: calls must arrive at the target only. A scenario stops at its first failed step, as the gun does. Trusted: renderers/projections in "
@@ -380,7 +384,9 @@ def drive(b, doc, d, name="cases"):
 
 # ---------------------------------------------------------------------------------- connection / life-cycle part
 
-CONN_NEG = ["dialpershot", "poolignored", "ignorewarmfail", "dieonfailure"]
+WIRE_NEG = ["inplace", "abortonbad", "dropmd", "shareddialsreflect", "scenariodeadline", "dirtyafterfail", "leakmd", "keepdefaults", "lastwins",
+            "retryunavailable"]
+CONN_NEG = ["dialpershot", "poolignored", "ignorewarmfail", "dieonfailure", "plainalways", "reflmddropped"]
 
 
 def conn_design_jobs(thorough):
@@ -399,8 +405,10 @@ def conn_describe(run, i, inv):
         what = "RunEnd:class=%s" % row.get("class")
     elif ev == "Recovered":
         what = "Recovered:%s" % row.get("ok")
-    return "conn mode=%s shared=%s clients=%s inst=%s at=%s%s" % (head.get("mode"), head.get("shared"), head.get("clients"),
-                                                                  head.get("inst"), what, (" inv=" + inv) if inv else ""), row
+    extra = "".join(" %s=%s" % (k_, head.get(k_)) for k_ in ("kind", "tls", "ttls", "needmd", "rmd", "notimeout")
+                    if head.get(k_) not in (None, False, "", "grpc"))
+    return "conn mode=%s shared=%s clients=%s inst=%s%s at=%s%s" % (head.get("mode"), head.get("shared"), head.get("clients"),
+                                                                    head.get("inst"), extra, what, (" inv=" + inv) if inv else ""), row
 
 
 def conn_slow_guard(run, head):
@@ -409,14 +417,16 @@ def conn_slow_guard(run, head):
     T = head.get("timeout") or 0
     if not T:
         return
-    slow = set(head.get("slow") or [])
+    slow = set(head.get("slow_ammo") or head.get("slow") or [])
+    wait = head.get("delayed_ms") or 0      # entries named wait<k> are answered after that long, WITHIN the timeout
     begin = {}
     for r_ in run:
         if r_["ev"] == "ShootBegin":
             begin[r_["gun"]] = (r_.get("ms", 0), r_.get("ammo"))
         elif r_["ev"] == "ShootEnd" and r_["gun"] in begin:
             t0, ammo = begin.pop(r_["gun"])
-            if ammo not in slow and r_.get("ms", 0) - t0 > T // 2:
+            extra = wait if str(ammo).startswith("wait") else 0
+            if ammo not in slow and r_.get("ms", 0) - t0 > extra + T // 4 + (T // 4 if not extra else 0):
                 raise vlib.MachineryError("conn run %s (timeout %d ms): a fast call took %d ms -- machine too slow to judge" % (
                     head.get("run"), T, r_.get("ms", 0) - t0))
 
@@ -443,7 +453,8 @@ def conn_validate(v, rows, d):
                 v.violation(sig, "connection run %s (%s, shared-client=%s/%s, %s instances): line %s is not a step of GrpcConn%s: %s" % (
                     head.get("run"), head.get("mode"), head.get("shared"), head.get("clients"), head.get("inst"), row.get("seq"),
                     (" (invariant %s)" % inv) if inv else "", json.dumps(brief(row))[:400]),
-                    replay_obj={"kind": "grpcconn", "run": {k_: head.get(k_) for k_ in ("mode", "shared", "clients", "inst", "entries", "timeout")},
+                    replay_obj={"kind": "grpcconn", "run": {k_: head.get(k_) for k_ in ("mode", "shared", "clients", "inst", "entries", "timeout", "kind", "tls",
+                                                                          "ttls", "needmd", "rmd", "authority", "notimeout")},
                                 "rejected": brief(row), "context": [brief(x) for x in run[max(1, i - 12):i + 1]]},
                     replay_name="conn%s.json" % head.get("run"))
                 validated += k
@@ -481,6 +492,15 @@ CONN_CORRUPTIONS = [
     ("a call the target answers too late is reported as 200",
      lambda run: run[0].get("mode") == "timeout",
      lambda rows: _alter_first(rows, lambda r_: r_["ev"] == "Sample" and r_["code"] == 504, lambda r_: r_.__setitem__("code", 200))),
+    ("a load call carries the reflection credentials",
+     lambda run: run[0].get("rmd") and run[0].get("mode") == "conns" and not run[0].get("needmd") or (run[0].get("rmd") and run[0].get("needmd")),
+     lambda rows: _alter_first(rows, lambda r_: r_["ev"] == "Recv", lambda r_: r_.__setitem__("reflmd", True))),
+    ("the reflection stream of a run with reflect_metadata comes without it",
+     lambda run: run[0].get("rmd"),
+     lambda rows: _alter_first(rows, lambda r_: r_["ev"] == "ReflCall", lambda r_: r_.__setitem__("reflmd", ""))),
+    ("a run whose gun speaks plaintext to a TLS target starts",
+     lambda run: run[0].get("ttls") and not run[0].get("tls"),
+     lambda rows: rows.insert(2, {"ev": "Bind", "gun": 2, "inst": 0, "ok": True, "gid": 1, "seq": 0}) or True),
     ("no successful call after the target came back",
      lambda run: run[0].get("mode") == "updown",
      lambda rows: _after_up_all_fail(rows)),
@@ -499,7 +519,7 @@ def _after_up_all_fail(rows):
 
 
 def conn_part(v, b, d, thorough):
-    r = vlib.tlc("GrpcConnMC", "GrpcConn_gen.cfg", workers=1, deadlock=False, timeout=300)
+    r = vlib.tlc("GrpcConnMC", "GrpcConn_genfull.cfg" if thorough else "GrpcConn_gen.cfg", workers=1, deadlock=False, timeout=300)
     doc = None
     for ln in r.out.splitlines():
         if ln.startswith('<<"VERIF", "'):
@@ -524,35 +544,130 @@ def conn_part(v, b, d, thorough):
             "conn_samples": [brief(r_) for r_ in rows if r_["ev"] in ("ConnBegin", "Recv", "TargetDown", "Recovered")][:4]}
 
 
+# ---------------------------------------------------------------------------------- JSON -> protobuf mapping part
+
+JSON_NEG = ["viafloat", "keepdefaults"]
+
+
+def json_design_jobs():
+    kw = dict(workers=1, deadlock=False, timeout=600, heap="2g")
+    return [("GrpcJsonMC", "GrpcJson_exh.cfg", kw)] + [("GrpcJsonMC", "GrpcJson_neg_%s.cfg" % n, kw) for n in JSON_NEG]
+
+
+def json_mismatches(rows, d, tag):
+    """One TLC pass over the Case lines: TraceGrpcJson evaluates GrpcJson!Expect on every recorded case and prints the
+    line number of every case that disagrees.  Returns (list of 0-based row indices, TLC states)."""
+    ok, ln, inv, st, r = trace_check("TraceGrpcJson", "TraceGrpcJson.cfg", rows, d, tag=tag)
+    if not ok:
+        raise vlib.MachineryError("TraceGrpcJson stopped at line %s of %d: %s" % (ln, len(rows), json.dumps(brief(rows[min(ln, len(rows)) - 1]))[:600]))
+    return sorted({int(m.group(1)) - 1 for m in re.finditer(r'<<"VERIF-MISMATCH", (\d+)>>', r.out)}), st
+
+
+def _first_case(rows, pred, f):
+    for r_ in rows:
+        if r_["ev"] == "Case" and not r_.get("corrupted") and pred(r_):   # every corruption gets a case of its own
+            f(r_)
+            r_["corrupted"] = True
+            return True
+    return False
+
+
+JSON_CORRUPTIONS = [
+    ("a decoded leaf carries another value",
+     lambda rows: _first_case(rows, lambda r_: r_["recv"] == 1 and r_["leaves"], lambda r_: r_["leaves"][0].__setitem__("v", "i57"))),
+    ("a field the payload sets is missing from the decoded message",
+     lambda rows: _first_case(rows, lambda r_: r_["recv"] == 1 and len(r_["leaves"]) > 1, lambda r_: r_["leaves"].pop())),
+    ("a payload that does not fit is sent",
+     lambda rows: _first_case(rows, lambda r_: r_["recv"] == 0 and r_["fail"] == 1, lambda r_: r_.update(recv=1, ok=1, fail=0))),
+    ("a payload that fits is answered with a failed sample and never sent",
+     lambda rows: _first_case(rows, lambda r_: r_["recv"] == 1 and r_["ok"] == 1, lambda r_: r_.update(recv=0, ok=0, fail=1, leaves=[]))),
+    ("a default-valued plain scalar arrives as set",
+     lambda rows: _first_case(rows, lambda r_: r_["recv"] == 1 and not r_["leaves"] and r_["json"] == '{"i64": 0}',
+                              lambda r_: r_.__setitem__("leaves", [{"p": "i64", "v": "i0"}]))),
+]
+
+
+def json_part(v, b, d, thorough, r):
+    """r: the TLC run of GrpcJson_exh.cfg -- it checked the properties of the interpretation AND printed the case space."""
+    import copy
+    doc = None
+    for ln in r.out.splitlines():
+        if ln.startswith('<<"VERIF", "'):
+            doc = json.loads(json.loads(ln[len('<<"VERIF", '):-2]))
+    if doc is None or r.error:
+        raise vlib.MachineryError("GrpcJsonMC generated no cases\n" + r.out[-2000:])
+    cases = os.path.join(d, "jsoncases.json")
+    json.dump(doc, open(cases, "w"))
+    trace = os.path.join(d, "jsonmap.ndjson")
+    wd = os.path.join(d, "jsonmap-work")
+    os.makedirs(wd, exist_ok=True)
+    vlib.run_driver(b, ["grpcjson", "-cases", cases, "-dir", wd, "-out", trace, "-inst", "3" if thorough else "2"], timeout=600)
+    rows = vlib.read_ndjson(trace)
+    t0 = time.time()
+    for e in (r_ for r_ in rows if r_["ev"] == "RunEnd" and r_["err"]):
+        v.violation("jsonmap run=%s at=RunEnd:err" % e["run"], "JSON mapping run %s ended with %s" % (e["run"], e["err"][:300]))
+        e["err"] = ""
+    bad, states = json_mismatches(rows, d, "jsonmap")
+    for i in bad:
+        row = rows[i]
+        sig = "jsonmap kind=%s msg=%s payload=%s at=Case:recv=%s,ok=%s,fail=%s" % (row["kind"], row["msg"], row["json"], row["recv"], row["ok"], row["fail"])
+        v.violation(sig, "%s entry with call %s and payload %s: the server %s; samples ok=%s failed=%s (codes %s) -- not what the payload "
+                    "interpreted against %s (GrpcJson!Expect) says" % (
+                        "grpc/json" if row["kind"] == "json" else "gRPC scenario", row["method"], row["json"],
+                        ("decoded %s" % row["canon"]) if row["recv"] else "received nothing", row["ok"], row["fail"], row.get("codes"), row["msg"]),
+                    replay_obj={"kind": "grpcjson", "case": {k: row[k] for k in ("id", "msg", "method", "w")}, "observed": brief(row)},
+                    replay_name="jsonmap-%s-%s.json" % (row["kind"], row["id"]))
+    corrupted = 0
+    if not bad:
+        # binding self-test, one TLC pass: every corruption hits another case of a copy of the trace; each must be reported
+        rows2 = copy.deepcopy(rows)
+        before = copy.deepcopy(rows)
+        applied = [name for name, mutate in JSON_CORRUPTIONS if mutate(rows2)]
+        touched = [i for i in range(len(rows)) if rows2[i] != before[i]]
+        got, _ = json_mismatches(rows2, d, "jsoncorrupt")
+        if len(touched) != len(applied) or sorted(got) != touched:
+            raise vlib.MachineryError("binding self-test: of %d corrupted JSON-mapping cases (lines %s) TraceGrpcJson reported %s" % (
+                len(applied), touched, got))
+        corrupted = len(applied)
+    vlib.log("JSON mapping part: %d cases x %d kinds, %d disagree, validation + self-test %.1fs" % (
+        doc["n"], sum(1 for r_ in rows if r_["ev"] == "Run"), len(bad), time.time() - t0))
+    caserows = [r_ for r_ in rows if r_["ev"] == "Case"]
+    return {"jsonmap_cases": doc["n"], "jsonmap_cases_expected_sent": doc["sent"], "jsonmap_evaluations": len(caserows),
+            "jsonmap_disagreeing": len(bad), "jsonmap_trace_spec_states": states, "jsonmap_corrupted_traces_rejected": corrupted,
+            "jsonmap_message_types": sorted({r_["msg"] for r_ in caserows}), "jsonmap_negative_controls": JSON_NEG,
+            "jsonmap_samples": [{k: r_[k] for k in ("kind", "msg", "json", "recv", "canon", "ok", "fail")} for r_ in caserows[11:300:97]]}
+
+
 def run(tier, v):
     thorough = tier == "thorough"
     # 1. design level + negative controls
     kw = dict(workers=4, deadlock=False, timeout=1800, heap="4g")
-    jobs = [("GrpcWireMC", "GrpcWire_exh3.cfg" if thorough else "GrpcWire_exh.cfg", dict(kw, workers=8, heap="8g")),
-            ("GrpcWireMC", "GrpcWire_neg_inplace.cfg", kw), ("GrpcWireMC", "GrpcWire_neg_abortonbad.cfg", kw),
-            ("GrpcWireMC", "GrpcWire_neg_dropmd.cfg", kw)]
-    more_neg = [("GrpcWireMC", "GrpcWire_neg_shareddialsreflect.cfg", kw), ("GrpcWireMC", "GrpcWire_neg_scenariodeadline.cfg", kw),
-                ("GrpcWireMC", "GrpcWire_neg_dirtyafterfail.cfg", kw), ("GrpcWireMC", "GrpcWire_neg_leakmd.cfg", kw),
-                ("GrpcWireMC", "GrpcWire_neg_keepdefaults.cfg", kw)]
-    jobs += more_neg
+    main = ("GrpcWireMC", "GrpcWire_exh3.cfg" if thorough else "GrpcWire_exh.cfg", dict(kw, workers=8, heap="8g"))
+    # further exhaustive configs (must pass): the metadata-key catalogue; thorough: files of 3 entries (2 instances)
+    more_pass = [("GrpcWireMC", "GrpcWire_exh_md.cfg", kw)]
+    if thorough:
+        more_pass.append(("GrpcWireMC", "GrpcWire_exh_file3.cfg", dict(kw, workers=8, heap="8g")))
+    neg = [("GrpcWireMC", "GrpcWire_neg_%s.cfg" % n, dict(kw, workers=2, heap="2g")) for n in WIRE_NEG]   # 1-5 s each: JVM start dominates
+    jobs = [main] + more_pass + neg
     t0 = time.time()
-    if thorough:   # files of 3 entries (2 instances) next to 3 instances (files of 2)
-        jobs.append(("GrpcWireMC", "GrpcWire_exh_file3.cfg", dict(kw, workers=8, heap="8g")))
     cjobs = conn_design_jobs(thorough)
-    allres = tlc_parallel(jobs + cjobs)
-    res, cres = allres[:len(jobs)], allres[len(jobs):]
+    jjobs = json_design_jobs()
+    allres = tlc_parallel(jobs + cjobs + jjobs)
+    res, cres, jres = allres[:len(jobs)], allres[len(jobs):len(jobs) + len(cjobs)], allres[len(jobs) + len(cjobs):]
     vlib.tlc_must_pass(cres[0], cjobs[0][1])
     for j, r in zip(cjobs[1:], cres[1:]):
         vlib.tlc_must_fail(r, j[1])
-    vlib.log("design TLC + negative controls: %.1fs (%d + %d states)" % (time.time() - t0, res[0].distinct, cres[0].distinct))
-    vlib.tlc_must_pass(res[0], jobs[0][1])
-    for j, r in zip(jobs[1:9], res[1:9]):
+    vlib.tlc_must_pass(jres[0], jjobs[0][1])
+    for j, r in zip(jjobs[1:], jres[1:]):
         vlib.tlc_must_fail(r, j[1])
-    states, trans = res[0].distinct, res[0].generated
-    for j, r in zip(jobs[9:], res[9:]):
+    vlib.log("design TLC + negative controls: %.1fs (%d + %d states)" % (time.time() - t0, res[0].distinct, cres[0].distinct))
+    states, trans = 0, 0
+    for j, r in zip(jobs[:1 + len(more_pass)], res[:1 + len(more_pass)]):
         vlib.tlc_must_pass(r, j[1])
         states += r.distinct
         trans += r.generated
+    for j, r in zip(jobs[1 + len(more_pass):], res[1 + len(more_pass):]):
+        vlib.tlc_must_fail(r, j[1])
     # 2. M2: the case space
     doc = gen_cases(thorough)
     b = vlib.harness_build()
@@ -563,6 +678,7 @@ def run(tier, v):
     vlib.log("trace validation: %.1fs (%d lines, %d states)" % (time.time() - t0, len(rows), tstates))
     corrupted = corruption_selftest(split_runs(rows), d, "TraceGrpcWire", "TraceGrpcWire.cfg", C20_CORRUPTIONS) if rejected == 0 else 0
     conn = conn_part(v, b, d, thorough)
+    jm = json_part(v, b, d, thorough, jres[0])
     states += cres[0].distinct
     trans += cres[0].generated
     validated += conn["conn_runs_validated"]
@@ -585,9 +701,11 @@ def run(tier, v):
         "abstract_entries": len(ents), "bad_entries": sum(1 for e in ents if e["bad"] != "none"),
         "runs": len(doc["runs"]), "runs_rejected": rejected,
         "calls_received": recvs, "trace_lines": len(rows), "trace_spec_states": tstates,
-        "negative_controls": ["inplace", "abortonbad", "dropmd", "shareddialsreflect", "scenariodeadline", "dirtyafterfail", "leakmd", "keepdefaults"], "corrupted_traces_rejected": corrupted, "design_configs": [jobs[0][1]] + [j[1] for j in jobs[9:]],
+        "negative_controls": WIRE_NEG, "corrupted_traces_rejected": corrupted, "design_configs": [j[1] for j in jobs[:1 + len(more_pass)]],
     }
     cov.update(conn)
+    cov.update(jm)
+    cov["evaluations"] += jm["jsonmap_evaluations"]
     return "model_checking", cov, [
         "connection part (GrpcConn.tla): client identities are not observable, connections are (grpc stats.Handler of the in-process target); "
         "after an outage every client may reconnect once; 'the target comes back' is judged by calls arriving again within 60 s",
